@@ -21,11 +21,12 @@ Definition dummy_cfg : band_cfg :=
   mkCfg "" false false KEU868 false 0 "" (mkDefaults 0 0 0 0 0 0)
         (mkTables false 0 0 [] [] [] [] [] []).
 
-Definition cfg_at (i : N) : band_cfg := nth (N.to_nat i) band_configs dummy_cfg.
+(* index into the 56 common configurations followed by the 40 obtained through deprecated names *)
+Definition cfg_at (i : N) : band_cfg := nth (N.to_nat i) (band_configs ++ band_alias_configs) dummy_cfg.
 
 (* the non-repeater configuration of the same band and dwell time *)
 Definition non_repeater_partner (c : band_cfg) : option band_cfg :=
-  find (fun p => String.eqb (c_name p) (c_name c) && Bool.eqb (c_dwell p) (c_dwell c) && negb (c_rep p))
+  find (fun p => String.eqb (c_name p) (common_name (c_name c)) && Bool.eqb (c_dwell p) (c_dwell c) && negb (c_rep p))
        band_configs.
 
 Inductive case :=
@@ -43,8 +44,9 @@ Inductive case :=
 | CChan (i : N) (uplink : bool) (idx : Z) (o : outcome (Z * Z * Z))
 | CEnabledDRs (i : N) (l : list Z)
 (* after the AddChannel history [ops] (errs: which calls returned an error) the uplink channels
-   are [chans] = (frequency, MinDR, MaxDR) and GetEnabledUplinkDataRates() = l *)
-| CEnabledHist (i : N) (ops : list (Z * Z * Z)) (errs : list bool) (chans : list (Z * Z * Z)) (l : list Z)
+   are [chans] = (frequency, MinDR, MaxDR), GetCustomUplinkChannelIndices() = customs and
+   GetEnabledUplinkDataRates() = l *)
+| CEnabledHist (i : N) (ops : list (Z * Z * Z)) (errs : list bool) (chans : list (Z * Z * Z)) (customs : list Z) (l : list Z)
 | CTxPow (i : N) (idx : Z) (o : outcome Z)
 | CDefaults (i : N) (d : defaults)
 | CDownTx (i : N) (f v : Z).
@@ -157,13 +159,17 @@ Definition check (c : case) : N :=
   | CEnabledDRs i l =>
     let t := c_tab (cfg_at i) in
     code (list_eqb Z.eqb (get_enabled_uplink_data_rates t) l) (enabled_drs_closed t l)
-  | CEnabledHist i ops errs chans l =>
-    let t := c_tab (cfg_at i) in
+  | CEnabledHist i ops errs chans customs l =>
+    let cfg := cfg_at i in
+    let t := c_tab cfg in
     let r := add_channels t ops in
     code (list_eqb Bool.eqb (snd r) errs
           && list_eqb chan3_eqb (map chan3_of (t_up (fst r))) chans
+          && list_eqb Z.eqb (map fst (filter (fun p => ch_custom (snd p))
+                                             (combine (zrange 0 (zlen (t_up (fst r)) - 1)) (t_up (fst r))))) customs
           && list_eqb Z.eqb (get_enabled_uplink_data_rates (fst r)) l)
-         (enabled_drs_post_ok t chans l)
+         (enabled_drs_post_ok t chans l
+          && with_region cfg (fun reg => channels_after_adds_ok reg t ops errs chans customs l))
   | CTxPow i idx o =>
     let t := c_tab (cfg_at i) in
     code (oz_eqb (get_tx_power_offset t idx) o)
